@@ -189,12 +189,22 @@ func genC17Type(t *rapid.T, useTag bool) *vh.TSpec {
 			}
 		case 11:
 			ft = vh.SliceOf(vh.NamedT("NInt"))
+			if rapid.IntRange(0, 2).Draw(t, "sliceflat") == 0 {
+				opt = "flat" // an option on a slice never selects the elements' codec
+			}
 		case 0:
 			ft = x
 		case 1:
 			ft = vh.PtrOf(x)
 		case 2:
 			ft = vh.SliceOf(x)
+			if rapid.IntRange(0, 2).Draw(t, "sliceproto") == 0 {
+				// the repeated form chosen by the field's option: the elements still use their registered codec
+				if rapid.Bool().Draw(t, "sliceptr") {
+					ft = vh.SliceOf(vh.PtrOf(x))
+				}
+				opt = "proto"
+			}
 		case 3:
 			if x.Kind == vh.KTime {
 				ft = vh.MapOf(str, x)
@@ -207,6 +217,9 @@ func genC17Type(t *rapid.T, useTag bool) *vh.TSpec {
 			ft = vh.StructOf(vh.F("In", 1, x), vh.F("P", 2, vh.PtrOf(x)))
 		case 6:
 			ft = vh.SliceOf(vh.StructOf(vh.F("In", 1, x)))
+			if rapid.IntRange(0, 3).Draw(t, "structsproto") == 0 {
+				opt = "proto"
+			}
 		case 7:
 			ft = vh.T(vh.KInt) // plain neighbour
 		default:
